@@ -333,7 +333,7 @@ fn main() {
          3f,40,7f,80,bf,c0,c1,ff} of length <=6/5/6 (quick: body/RDATA/name) or <=7/6/7 (thorough), names also at every offset k of the string itself (earlier octets are pointer targets) and at offset 0x3ffe. \
          f3: complete single-edit neighbourhoods (every truncation, every octet x all 256 values, insert/delete over S, every \
          16-bit window set to 8 boundary values; thorough: all pairs of S-substitutions on messages) of a seed corpus of valid \
-         messages / records / RDATA / names covering every RData variant, EDNS, TSIG, compression. f4: 19 growth families for \
+         messages / records / RDATA / names covering every RData variant, EDNS, TSIG, compression. f4: 22 growth families for \
          n = 1..64, 128, 256, ... up to the largest n that fits 65,535 octets. Oracle: returns (no panic); decoder ticks <= \
          256*len+4096 and (f4) ticks/len at any size <= 4x the maximum seen up to 4 KiB; every decoded Name <= 255 octets, \
          labels <= 63 (from the label iterator). distinct_nontrivial = distinct (entry, input) digests that were accepted or \
